@@ -9,6 +9,7 @@ import (
 	"flag"
 	"fmt"
 	"io"
+	"io/ioutil"
 	"math/rand"
 	"os"
 	"runtime/debug"
@@ -238,6 +239,7 @@ type cafsCfg struct {
 	dumpKeys      func(map[string]interface{})
 	noVerify      bool // store instances built with VerifyHash(false): the bytes must come back all the same
 	touchFails    bool // the store cannot refresh objects (Touch always fails, as on stores without that call)
+	eofReads      bool // the store's readers deliver their last bytes together with io.EOF, in pieces of 1000 bytes
 }
 
 const stepWait = 3 * time.Second
@@ -288,6 +290,9 @@ func runCafsBehaviour(cfg *cafsCfg, i int, line []byte, r *vutil.BehResult) {
 	}
 	w := store.NewWorld()
 	ctl := &store.Ctl{Name: "writer", PlainReaders: cfg.noVerify}
+	if cfg.eofReads {
+		ctl.PlainReaders, ctl.EOFWithData, ctl.ReadChunk = true, true, 1000
+	}
 	if cfg.touchFails {
 		ctl.FaultFn = func(storeName, op, key string, nth int) bool { return op == "touch" }
 	}
@@ -777,6 +782,56 @@ func readMatrix(cfg *cafsCfg, mk func() cafs.Fs, key cafs.Key, content []byte, f
 		rest := &offsetReader{rd: rd}
 		r.Steps += seqRead(rest, content[m:], []int{lam}, fail, "interleaved rest")
 	})
+	// a sequential reader and a random-access reader of ONE store instance: the leaf the sequential reader is in the
+	// middle of is (also) in the instance's leaf cache, then random reads of the other leaves push it out and its buffer
+	// is used again - the sequential reader must go on delivering the object's bytes
+	fs = mk()
+	guardRead(fail, "sequential read across cache eviction", func() {
+		if n <= lam {
+			return
+		}
+		ra, err := fs.GetAt(ctx, key)
+		if err != nil {
+			fail("getat/error", nil, err.Error(), "seq+evict")
+			return
+		}
+		rd, err := fs.Get(ctx, key)
+		if err != nil {
+			fail("get/error", nil, err.Error(), "seq+evict")
+			return
+		}
+		defer rd.Close()
+		one := make([]byte, 1)
+		if _, err := ra.ReadAt(one, 0); err != nil && err != io.EOF {
+			fail("readat/error", nil, err.Error(), "seq+evict: first leaf")
+			return
+		}
+		part := make([]byte, lam/2+1)
+		m, err := io.ReadFull(rd, part)
+		if err != nil || !bytes.Equal(part[:m], content[:m]) {
+			fail("read/wrong-bytes", nil, fmt.Sprint(err), "seq+evict: first part")
+			return
+		}
+		nleaves := (n + lam - 1) / lam
+		for round := 0; round < 3; round++ {
+			for li := 1; li < nleaves; li++ {
+				if _, err := ra.ReadAt(one, int64(li*lam)); err != nil && err != io.EOF {
+					fail("readat/error", nil, err.Error(), fmt.Sprintf("seq+evict: leaf %d", li))
+					return
+				}
+				time.Sleep(time.Millisecond)
+			}
+		}
+		rest, err := ioutil.ReadAll(rd)
+		r.Steps++
+		if err != nil {
+			fail("read/error", n-m, err.Error(), "seq+evict: rest of the sequential read after the other leaves were read at random")
+			return
+		}
+		if !bytes.Equal(rest, content[m:]) {
+			fail("read/wrong-bytes", n-m, len(rest), "seq+evict: rest of the sequential read after the other leaves were read at random")
+		}
+	})
 	// WriteTo, plain writer and WriterAt
 	fs = mk()
 	for _, at := range []bool{false, true} {
@@ -839,6 +894,7 @@ func cafsReplay(args []string) error {
 	keysOut := fl.String("keys-out", "", "dump (content, key) pairs for the independent hash oracle")
 	noVerify := fl.Bool("noverify", false, "build the store instances with VerifyHash(false)")
 	touchFails := fl.Bool("touch-fails", false, "Touch always fails on the blob store")
+	eofReads := fl.Bool("eof-reads", false, "store readers return io.EOF together with their last bytes, 1000 bytes per Read")
 	leafCycle := fl.String("leaf-cycle", "", "comma separated leaf sizes used in turn by the behaviours of ONE process (state shared between store instances)")
 	_ = fl.Parse(args)
 	var cycle []int
@@ -848,7 +904,7 @@ func cafsReplay(args []string) error {
 		}
 	}
 	cfg := &cafsCfg{ref: refine{L: *cells, Lambda: *lambda, Boundary: *boundary, Seed: *seed}, style: *style, crc: *crc,
-		prefetch: *prefetch, cache1: *cache1, sched: *sched, reads: *reads, rng: rand.New(rand.NewSource(int64(*seed))), noVerify: *noVerify, touchFails: *touchFails}
+		prefetch: *prefetch, cache1: *cache1, sched: *sched, reads: *reads, rng: rand.New(rand.NewSource(int64(*seed))), noVerify: *noVerify, touchFails: *touchFails, eofReads: *eofReads}
 	var kf *os.File
 	if *keysOut != "" && os.Getenv("VH_CHILD") != "" {
 		var err error
